@@ -277,6 +277,10 @@ def add_cov(ctx, cov_batch, sd, probes, replay, key, label):
         ctx.bump("cov_skipped_single_sample")      # one patch: outside the property
         return
     finite_in = jk.all_finite(samples)
+    mags = np.abs(samples[np.isfinite(samples) & (samples != 0)])
+    if mags.size and (mags.max() > 2.0 ** 480 or mags.min() < 2.0 ** -480):
+        ctx.bump("cov_skipped_squares_outside_float64_range")   # products of deviations overflow / underflow
+        return
     try:
         cov = np.atleast_2d(np.asarray(jk.quiet(lambda: sd.covariance), dtype=float))
         err = np.atleast_1d(np.asarray(jk.quiet(lambda: sd.error), dtype=float))
@@ -997,11 +1001,11 @@ def case_pipeline(ctx, b_corr, b_nz, b_cov, b_rerun, spec, tag, ks=None):
                 mine = np.asarray(cds[which].samples)[k]
                 b_rerun.add("c03_rerun_case %s %s %s" % (tol, jk.oqlist(mine), jk.oqlist(again)), h_rerun(ctx),
                             dict(kind="pipeline", spec=spec, k=k, which=which))
-                both = np.isfinite(mine) & np.isfinite(np.asarray(again, dtype=float))
-                ctx.count(key=("pipeline-rerun", repr(spec), k, which), nontrivial=bool(both.any()),
+                num = np.isfinite(np.asarray(again, dtype=float))     # where the repeated measurement is a number
+                ctx.count(key=("pipeline-rerun", repr(spec), k, which), nontrivial=bool(num.any()),
                           kind="pipeline/rerun-without-patch/%s/%s" % (which, profile))
-                ctx.bump("pipeline_rerun_entries:numbers-in-both", int(both.sum()))
-                ctx.bump("pipeline_rerun_entries:not-compared", int((~both).sum()))
+                ctx.bump("pipeline_rerun_entries:compared", int(num.sum()))
+                ctx.bump("pipeline_rerun_entries:rerun-undefined-not-compared", int((~num).sum()))
     finally:
         for d in os.listdir(ctx.workdir):
             if d.startswith("pipe_%s_" % tag):
@@ -1019,7 +1023,7 @@ def magnitude_probe(ctx, b_raw, b_corr, b_nz, b_cov, b_hist, b_rerun):
         case_nc(ctx, b_raw, gen_single_mag(prng, "nc", profile=profile))
     for profile in CF_PROFILES:
         for auto in (False, True):
-            case_corr(ctx, b_corr, b_cov, gen_corr_mag(prng, profile=profile, shape=(3, 5), auto=auto))
+            case_corr(ctx, b_corr, b_cov, gen_corr_mag(prng, profile=profile, shape=(2, 4), auto=auto))
     case_nz(ctx, b_nz, b_cov, gen_nz_spec_mag(prng))
     case_nz_direct(ctx, b_nz, b_cov, gen_nz_direct(prng))
     for n, cls in enumerate(("CorrData", "RedshiftData", "HistData")):
@@ -1036,7 +1040,7 @@ def run(ctx):
     traces(ctx)
     ctx.log("traces done")
     b_raw = jk.Batch(ctx, "Cases_C03_raw", shard=60)
-    b_corr = BatchX(ctx, "Cases_C03_corr", shard=30)
+    b_corr = BatchX(ctx, "Cases_C03_corr", shard=20)
     b_cov = jk.Batch(ctx, "Cases_C03_cov", shard=12)
     b_nz = jk.Batch(ctx, "Cases_C03_nz", shard=40)
     b_hist = jk.Batch(ctx, "Cases_C03_hist", shard=80)
@@ -1078,9 +1082,9 @@ def run(ctx):
         case_weights(ctx, b_raw, gen_single_mag(rng, "weights", few()))
     for _ in range(ctx.n(35, 500)):
         case_nc(ctx, b_raw, gen_single_mag(rng, "nc", few()))
-    for _ in range(ctx.n(50, 800)):
-        case_corr(ctx, b_corr, b_cov, gen_corr_mag(rng, few()))
-    for _ in range(ctx.n(15, 200)):
+    for _ in range(ctx.n(40, 800)):       # (quick: mostly few patches - the model adds unreduced fractions of 2^-80)
+        case_corr(ctx, b_corr, b_cov, gen_corr_mag(rng, few() or (ctx.quick() and rng.random() < 0.85)))
+    for _ in range(ctx.n(12, 200)):
         case_nz(ctx, b_nz, b_cov, gen_nz_spec_mag(rng, ctx.quick() or few()))
     for _ in range(ctx.n(24, 300)):
         case_nz_direct(ctx, b_nz, b_cov, gen_nz_direct(rng, scaled=rng.random() < 0.75))
@@ -1089,7 +1093,7 @@ def run(ctx):
     for i in range(ctx.n(14, 150)):
         case_hist(ctx, b_hist, b_cov, gen_hist_mag(rng, rng.choice([2, 3, 3, 4, 5, 7]), rng.choice([1, 2, 3, 4])), "hm%d" % i)
     # ---- the real pipeline
-    for i in range(ctx.n(7, 60)):
+    for i in range(ctx.n(7, 40)):
         spec = gen_pipeline(rng)
         case_pipeline(ctx, b_corr, b_nz, b_cov, b_rerun, spec, "p%d" % i,
                       ks=None if ctx.quick() else list(range(spec["npatch"])))
